@@ -183,7 +183,7 @@ Definition rr_frame (rrnamebuf rrfixed rd : bytes) : res bytes :=
 Definition make_rrsig_data (tbl : list entry) (r : rrsig) (rrname : name) (rdclass rdtype : Z)
            (rdatas : list (list field)) (origin : option name) : res bytes :=
   do signer <- absolutize (r_signer r) origin;
-  do wire <- rrsig_to_wire r (Some signer) false;
+  do wire <- rrsig_to_wire r origin false;
   let data := firstn 18 wire in
   do sd <- to_wire signer None true;
   do rrname <- absolutize rrname origin;
